@@ -27,6 +27,7 @@ func rulesC06(c *Ctx, r *Report) {
 	rulesScanAlias(c, r, true)
 	rulesLineTerminators(c, r, "C06")
 	rulesOpenedHandle(c, r)
+	rulesNoTranscoder(c, r)
 }
 
 // ---------------------------------------------------------------------------
@@ -144,6 +145,14 @@ func rulesFileDelegation(c *Ctx, r *Report) {
 			return true
 		})
 		if rng == nil {
+			// not written as a range statement: decide it on the values (explicit iterator call, forwarding helper)
+			if ok, why := fdDelegatesSSA(c, sp); ok {
+				r.holds("FD3", where, "delegates to "+sp.reader, c.pos(lit.Pos()), fmt.Sprintf("after a successful open every path to a return invokes %s(f) with a body that hands every item to the callback unchanged (value form)", sp.reader))
+				continue
+			} else if why != "" {
+				r.violated("FD3", where, "delegates to "+sp.reader, c.pos(lit.Pos()), fmt.Sprintf("no `for … := range %s(f)` over the opened stream, and the value form fails: %s", sp.reader, why))
+				continue
+			}
 			r.violated("FD3", where, "delegates to "+sp.reader, c.pos(lit.Pos()), fmt.Sprintf("no `for … := range %s(f)` over the opened stream: File does not yield what %s yields on the file's bytes", sp.reader, sp.reader))
 			continue
 		}
@@ -1097,4 +1106,258 @@ func advancesBuffer(c *Ctx, call ssa.CallInstruction, scanner bool, depth int) b
 		return found
 	}
 	return false
+}
+
+// fdDelegatesSSA is the value-level form of FD3/FD4, used when File does not contain a `for … range Reader(f)`
+// statement: after a successful open every path to a return passes an invocation of Reader(opened file) — called
+// directly with a body, or handed with the callback to a helper of the package that invokes it — and the body hands
+// every item it receives to the callback unchanged.
+func fdDelegatesSSA(c *Ctx, sp fileSpec) (bool, string) {
+	outer := c.fn(sp.rel, sp.file)
+	reader := c.fn(sp.rel, sp.reader)
+	if outer == nil || reader == nil || len(outer.AnonFuncs) != 1 {
+		return false, "File or " + sp.reader + " not found"
+	}
+	lit := outer.AnonFuncs[0]
+	if len(lit.Params) != 1 {
+		return false, "iterator literal without a single callback"
+	}
+	var open *ssa.Call
+	instrs(lit, func(in ssa.Instruction) {
+		if cl, ok := in.(*ssa.Call); ok && fnIs(cl.Call.StaticCallee(), gostuffPath+"/aio", "Open") {
+			open = cl
+		}
+	})
+	if open == nil {
+		return false, "no aio.Open in the iterator literal"
+	}
+	var h, e *ssa.Extract
+	for _, ref := range *open.Referrers() {
+		if ex, ok := ref.(*ssa.Extract); ok {
+			if ex.Index == 0 {
+				h = ex
+			} else {
+				e = ex
+			}
+		}
+	}
+	if h == nil || e == nil {
+		return false, "open result not destructured"
+	}
+	// values that are the handle / the callback in lit (directly or through their captured cells)
+	cellOf := func(v ssa.Value) map[ssa.Value]bool {
+		cells := map[ssa.Value]bool{}
+		for _, ref := range *v.Referrers() {
+			if st, ok := ref.(*ssa.Store); ok && st.Val == v {
+				if al, ok := st.Addr.(*ssa.Alloc); ok {
+					cells[al] = true
+				}
+			}
+		}
+		return cells
+	}
+	hCells, yCells := cellOf(h), cellOf(lit.Params[0])
+	isVal := func(v ssa.Value, direct ssa.Value, cells map[ssa.Value]bool) bool {
+		v = unwrapIface(v)
+		if v == direct {
+			return true
+		}
+		ld, ok := v.(*ssa.UnOp)
+		return ok && ld.Op == token.MUL && cells[ld.X]
+	}
+	isHandle := func(v ssa.Value) bool { return isVal(v, h, hCells) }
+	isYield := func(v ssa.Value) bool { return isVal(v, lit.Params[0], yCells) }
+	// Reader(handle) calls
+	isReaderCall := func(v ssa.Value) bool {
+		cl, ok := v.(*ssa.Call)
+		return ok && cl.Call.StaticCallee() == reader && len(cl.Call.Args) == 1 && isHandle(cl.Call.Args[0])
+	}
+	// passThrough: body hands each item it gets to the callback unchanged, on every path to a return
+	passThrough := func(body *ssa.Function, isCb func(ssa.Value) bool) (bool, string) {
+		nCalls := 0
+		okArgs := true
+		cbBlocks := map[*ssa.BasicBlock]bool{}
+		instrs(body, func(in ssa.Instruction) {
+			cl, ok := in.(*ssa.Call)
+			if !ok || !isCb(cl.Call.Value) {
+				return
+			}
+			nCalls++
+			cbBlocks[cl.Block()] = true
+			if len(cl.Call.Args) != len(body.Params) {
+				okArgs = false
+				return
+			}
+			for i, a := range cl.Call.Args {
+				if a != ssa.Value(body.Params[i]) {
+					okArgs = false
+				}
+			}
+		})
+		if nCalls == 0 {
+			return false, "the loop body never calls the callback"
+		}
+		if !okArgs {
+			return false, "the loop body does not pass the item it received to the callback unchanged"
+		}
+		seen := map[*ssa.BasicBlock]bool{}
+		skip := false
+		var walk func(b *ssa.BasicBlock)
+		walk = func(b *ssa.BasicBlock) {
+			if seen[b] || cbBlocks[b] {
+				return
+			}
+			seen[b] = true
+			if _, ok := lastInstr(b).(*ssa.Return); ok {
+				skip = true
+			}
+			for _, su := range b.Succs {
+				walk(su)
+			}
+		}
+		walk(body.Blocks[0])
+		if skip {
+			return false, "the loop body can return without handing the item to the callback"
+		}
+		return true, ""
+	}
+	// body functions: a closure value whose captured callback cell is known
+	bodyOf := func(v ssa.Value, from *ssa.Function, cbCells map[ssa.Value]bool, cbDirect ssa.Value) (*ssa.Function, func(ssa.Value) bool) {
+		mc, ok := v.(*ssa.MakeClosure)
+		if !ok {
+			return nil, nil
+		}
+		b := mc.Fn.(*ssa.Function)
+		fvCell := map[ssa.Value]bool{}
+		fvDirect := map[ssa.Value]bool{}
+		for i, bind := range mc.Bindings {
+			if i >= len(b.FreeVars) {
+				break
+			}
+			if cbCells[bind] {
+				fvCell[b.FreeVars[i]] = true
+			}
+			if bind == cbDirect {
+				fvDirect[b.FreeVars[i]] = true
+			}
+		}
+		return b, func(x ssa.Value) bool {
+			if fvDirect[x] {
+				return true
+			}
+			ld, ok := x.(*ssa.UnOp)
+			return ok && ld.Op == token.MUL && fvCell[ld.X]
+		}
+	}
+	why := ""
+	sites := map[*ssa.BasicBlock]bool{}
+	instrs(lit, func(in ssa.Instruction) {
+		cl, ok := in.(*ssa.Call)
+		if !ok {
+			return
+		}
+		// (a) Reader(f)(body)
+		if isReaderCall(cl.Call.Value) && len(cl.Call.Args) == 1 {
+			if b, isCb := bodyOf(cl.Call.Args[0], lit, yCells, lit.Params[0]); b != nil {
+				if ok, w := passThrough(b, isCb); ok {
+					sites[cl.Block()] = true
+				} else {
+					why = w
+				}
+			}
+			return
+		}
+		// (b) helper(Reader(f), yield): the helper invokes its sequence parameter with a pass-through body
+		g := cl.Call.StaticCallee()
+		if g == nil || g.Blocks == nil || g.Pkg != lit.Pkg {
+			return
+		}
+		seqI, cbI := -1, -1
+		for i, a := range cl.Call.Args {
+			if isReaderCall(a) {
+				seqI = i
+			}
+			if isYield(a) {
+				cbI = i
+			}
+		}
+		if seqI < 0 || cbI < 0 || seqI >= len(g.Params) || cbI >= len(g.Params) {
+			return
+		}
+		gCb := g.Params[cbI]
+		gCells := cellOf(gCb)
+		okG := false
+		invoked := map[*ssa.BasicBlock]bool{}
+		instrs(g, func(in2 ssa.Instruction) {
+			c2, ok := in2.(*ssa.Call)
+			if !ok || c2.Call.Value != ssa.Value(g.Params[seqI]) || len(c2.Call.Args) != 1 {
+				return
+			}
+			if b, isCb := bodyOf(c2.Call.Args[0], g, gCells, gCb); b != nil {
+				if ok, w := passThrough(b, isCb); ok {
+					okG = true
+					invoked[c2.Block()] = true
+				} else {
+					why = w
+				}
+			}
+		})
+		if okG {
+			// every path through the helper invokes the sequence
+			seen := map[*ssa.BasicBlock]bool{}
+			skip := false
+			var walk func(b *ssa.BasicBlock)
+			walk = func(b *ssa.BasicBlock) {
+				if seen[b] || invoked[b] {
+					return
+				}
+				seen[b] = true
+				if _, ok := lastInstr(b).(*ssa.Return); ok {
+					skip = true
+				}
+				for _, su := range b.Succs {
+					walk(su)
+				}
+			}
+			walk(g.Blocks[0])
+			if !skip {
+				sites[cl.Block()] = true
+			} else {
+				why = "the helper can return without invoking the sequence"
+			}
+		}
+	})
+	if len(sites) == 0 {
+		if why == "" {
+			why = "no invocation of " + sp.reader + "(opened file) found"
+		}
+		return false, why
+	}
+	// must-pass from the successful open
+	seen := map[*ssa.BasicBlock]bool{}
+	leak := false
+	var walk func(b *ssa.BasicBlock)
+	walk = func(b *ssa.BasicBlock) {
+		if seen[b] || sites[b] {
+			return
+		}
+		seen[b] = true
+		if _, ok := lastInstr(b).(*ssa.Return); ok {
+			leak = true
+		}
+		for k, su := range b.Succs {
+			if iff, ok := lastInstr(b).(*ssa.If); ok && errNonNilEdge(edgeLit{iff.Cond, k == 0}) == ssa.Value(e) {
+				continue
+			}
+			walk(su)
+		}
+	}
+	if sites[open.Block()] {
+		return true, ""
+	}
+	walk(open.Block())
+	if leak {
+		return false, "after a successful open a return is reachable without invoking " + sp.reader + "(f)"
+	}
+	return true, ""
 }
